@@ -306,12 +306,12 @@ def export_case(spec):
     except ValueError as e:
         res['info'].append('skipped:' + str(e)[:40]); return res
     out = M.run_export(dat, geo, kw)
-    for opn in ('eos', 'rocks', 'srcs'):
-        res['lines'].append(('export-' + opn, '\t'.join([opn, '0', M.hx(''), M.hx('')] + base), out[opn]))
+    res['lines'].append(('export', '\t'.join(['exp', '0', M.hx(''), M.hx('')] + base), ' | '.join(out[k] for k in ('eos', 'rocks', 'srcs'))))
     res['info'] += ['route:' + spec['route'], 'json:' + ('ok' if out['full'] else 'raised'), 'atm:%d' % spec['geo']['atmos_type'],
                     'order:%s' % spec['geo']['block_order']]
     # ---- the export as a whole: a boundary block none of whose neighbours is an interior block has no faces
-    if not out['full'] and out.get('json_where') == 'boundaries_json' and out.get('json_exc') == 'IndexError':
+    #      (an IndexError elsewhere in boundaries_json, e.g. default_incons shorter than the EOS needs, is the caller's)
+    if not out['full'] and out.get('json_where') == 'boundaries_json' and out.get('json_exc') == 'IndexError' and 'normals' in out.get('json_line', ''):
         inner = lambda b: 0. < b.volume < spec['atmos_volume']
         lone = [b.name for b in dat.grid.blocklist if not inner(b) and
                 not any(inner(dat.grid.block[n]) for c in b.connection_name for n in c if n != b.name)]
@@ -426,6 +426,13 @@ def absorb(ctx, exe, kind, specs, results, label=''):
         out = vf.run_driver(exe, lines, shards=NSHARD if len(lines) > 400 else 1)
         per = Counter()
         for (name, spec, impl), case, model in zip(meta, lines, out):
+            if name == 'export':        # one driver line, three compared pieces
+                mp, ip = model.split(' | '), impl.split(' | ')
+                for k, part in enumerate(('export-eos', 'export-rocks', 'export-srcs')):
+                    per[part] += 1
+                    a, b = (mp[k] if k < len(mp) else model), (ip[k] if k < len(ip) else impl)
+                    if a != b: ctx.disagreement(part, {'spec': spec, 'difference': 'model %s | implementation %s' % (a[:600], b[:600])}, a[:2000], b[:2000])
+                continue
             per[name] += 1
             if model != impl:
                 ctx.disagreement(name, {'spec': spec, 'difference': M.explain(model, impl)[:1500]}, model[:2000], impl[:2000])
